@@ -31,7 +31,8 @@ class CachingStreamWrapper(io.IOBase):
 
     def peek(self, n):
         result = self.read(n)
-        self._cache.seek(-len(result), os.SEEK_CUR)
+        if result:
+            self._cache.seek(-len(result), os.SEEK_CUR)
         return result
 
     def seekable(self):
@@ -49,6 +50,9 @@ class CachingStreamWrapper(io.IOBase):
                 return read_from_cache
 
         read_from_raw = self._raw.read(n)
+
+        if read_from_raw is None:  # non-blocking stream has nothing yet
+            return read_from_cache or None
 
         self._cache.write(read_from_raw)
 
